@@ -592,6 +592,7 @@ def check_C14(tier):
     if tier == "thorough":
         scns += sc.futures_scn("C14d", "bcast", caps=caps, spins=(2, 2)) + sc.futures_scn("C14x", "mpmc", caps=caps)
     scns += sc.no_receivers("C14n", "bcast", caps=caps, fut=True) + sc.remove_stream("C14r", "bcast", caps=caps, fut=True)
+    scns += sc.many_parked("C14p")
     for s_ in scns:
         s_["livelock"] = 4000
     return generic_check("C14", tier, ["C14", "C07C14"], scns, plans_for(tier), RULE_CONC +
@@ -606,7 +607,7 @@ def check_C15(tier):
     caps = caps_for(tier)[:2]
     scns = (sc.traffic("C15", "bcast", fut=True, caps=caps) + sc.traffic("C15", "mpmc", fut=True, caps=caps[:1]) +
             sc.futures_scn("C15f", "bcast", caps=caps) + sc.disconnect("C15d", "bcast", caps=caps, fut=True) +
-            sc.disconnect("C15d", "mpmc", caps=caps[:1], fut=True))
+            sc.disconnect("C15d", "mpmc", caps=caps[:1], fut=True) + sc.many_parked("C15p"))
     for s_ in scns:
         s_["livelock"] = 4000
     depth = 4 if tier == "quick" else 5
@@ -626,6 +627,7 @@ def check_C15(tier):
 
 def check_C16(tier):
     scns = (sc.churn("C16", "bcast", caps=(2,), cycles=7 if tier == "quick" else 12) +
+            sc.churn("C16l", "bcast", caps=(1,), cycles=13)[3:] +
             sc.churn("C16", "mpmc", caps=(2,), cycles=7 if tier == "quick" else 12) +
             sc.churn("C16", "bcast", caps=(1,), cycles=7, fut=True))
     return generic_check("C16", tier, ["C16"], scns, plans_for(tier, dfs_cap_quick=1500, rnd_quick=400), RULE_CONC +
